@@ -502,10 +502,12 @@ static void run_triples(const char *fam, int nlists, const Config &C, const Orac
   std::string F(fam);
   R.counter("triple_callback_deliveries", (long long)g_del3.size());
   {
+    // observation only (DESIGN.md: callback multiplicity is judged for pairs)
     std::map<T3, int> mult;
-    int mx = 0;
-    for (auto &d : g_del3) mx = std::max(mx, ++mult[canon(d.a, d.b, d.c)]);
-    R.counter_max("triple_callback_max_multiplicity_observed_only", mx);
+    for (auto &d : g_del3) ++mult[canon(d.a, d.b, d.c)];
+    long long multi = 0;
+    for (auto &kv : mult) if (kv.second > 1) ++multi;
+    R.counter("triples_delivered_to_callback_more_than_once_observed_only", multi);
   }
   auto wit = [&](int i, int j, int k) {
     J w = config_json(C);
